@@ -13,7 +13,9 @@ import (
 	"verifharness/props/c05"
 )
 
-var masks = []int32{'*', 'é', '你', 0xFFFD, -1, 0xD800, '😀'}
+var masks = []int32{'*', 'é', '你', 0xFFFD, -1, 0xD800, '😀',
+	// magnitudes: width boundaries of EncodeRune, the surrogate range, the top of Unicode, int32 extremes
+	0, 0x7F, 0x80, 0x7FF, 0x800, 0xD7FF, 0xDFFF, 0xE000, 0xFFFF, 0x10000, 0x10FFFF, 0x110000, 2147483647, -2147483648}
 
 func shuffle(r *core.Rand, xs []c05.Seq) {
 	for i := len(xs) - 1; i > 0; i-- {
@@ -145,7 +147,68 @@ func genOp(r *core.Rand, u c05.Unit, pats, focus []c05.Seq) string {
 	return fmt.Sprintf("replace %s %s", c05.Hex(tb), c05.Hex(repl))
 }
 
+// genHistory: Insert…, Build, calls, then 1–3 more rounds of Insert…, Build, dump, calls
+// on the same trie; the later patterns lie inside earlier ones (old nodes need new
+// failure links) and the texts are the earlier patterns that contain them.
+func genHistory(r *core.Rand, tier string) core.Case {
+	pats, u, later := c05.HistoryBase(r)
+	var focus []c05.Seq
+	if r.Chance(45) {
+		u = c05.MainUnit
+		pats, focus, _ = shaped(r, u)
+		later = nil
+		if len(pats) > 2 && r.Bool() { // the short patterns arrive after the long one was built
+			k := r.Range(1, len(pats)-1)
+			pats, later = pats[:k], pats[k:]
+		}
+	}
+	lines := []string{c05.Header("C06", c05.SeqsBytes(pats))}
+	for n := r.Range(0, 2); n > 0; n-- {
+		lines = append(lines, genOp(r, u, pats, focus))
+	}
+	rounds := r.Range(1, 2)
+	if tier == "thorough" && r.Chance(30) {
+		rounds = 3
+	}
+	for k := 0; k < rounds; k++ {
+		newp, f2 := c05.NextRound(r, u, pats)
+		if len(later) > 0 && (k == rounds-1 || r.Bool()) {
+			newp, later = append(newp, later...), nil
+		}
+		for _, p := range newp {
+			lines = append(lines, "insert "+c05.Hex(p.Bytes()))
+		}
+		lines = append(lines, "build")
+		pats = append(pats, newp...)
+		if r.Chance(50) && c05.DumpAvailable() {
+			lines = append(lines, "dump")
+		}
+		fs := append(append([]c05.Seq{}, f2...), focus...)
+		for n := r.Range(2, 4); n > 0; n-- {
+			lines = append(lines, genOp(r, u, pats, fs))
+		}
+	}
+	return core.Case{Lines: lines, Tag: "history"}
+}
+
+// genLarge: the C05 large / magnitude shapes (wide nodes, long patterns, long texts, many
+// patterns) under Replace / ReplaceWithMask.
+func genLarge(r *core.Rand, tier string) core.Case {
+	pats, u, texts, _, _ := c05.GenLarge(r, tier)
+	lines := []string{c05.Header("C06", c05.SeqsBytes(pats))}
+	for n := r.Range(2, 3); n > 0; n-- {
+		lines = append(lines, genOp(r, u, pats, texts))
+	}
+	return core.Case{Lines: lines, Tag: "large"}
+}
+
 func gen(r *core.Rand, tier string) core.Case {
+	if r.Intn(1000) < c05.LargeShare(tier) {
+		return genLarge(r, tier)
+	}
+	if r.Chance(9) {
+		return genHistory(r, tier)
+	}
 	var pats, focus []c05.Seq
 	var u c05.Unit
 	var tag string
@@ -189,7 +252,7 @@ func mk(pats []string, ops ...string) core.Case {
 }
 
 func corpus() []core.Case {
-	return []core.Case{
+	return append(c05.HistoryCorpus("C06", "mask abce 42", "replace xabcdushers #", "mask a你b\xffb 233", "replace a\xffb <>"), []core.Case{
 		// F4: a, c, abcde on abcde: scopes [0,1) [2,3) [0,5)
 		mk([]string{"a", "c", "abcde"}, "replace|abcde|*"),
 		mk([]string{"a", "c", "abcde"}, "mask|abcde|42"),
@@ -211,5 +274,5 @@ func corpus() []core.Case {
 		mk([]string{"\xef\xbf\xbd"}, "replace|\xff|#"),
 		mk([]string{"\xef\xbf\xbd"}, "mask|\xff|42"),
 		mk([]string{"\xff", "a\xffb"}, "replace|\xef\xbf\xbd|#", "mask|a\xffb\xff|42", "replace|xa\xffb|"),
-	}
+	}...)
 }
